@@ -461,9 +461,18 @@ def observed_events(canon):
 
 def check_f1(spec, data, canon, flags):
     """Compare the canonical trace of the real parser with the model.  Returns findings."""
-    out = []
     m = F1Model(spec, data)
     m.run()
+    out, obs = compare_model_trace(m.events, m.terminal, m.taint, canon, data, flags, "F1")
+    if out:
+        return out
+    F = lambda kind, detail, oracle="F1": out.append(oracles.V(oracle, kind, -1, 0, detail))
+    return _check_f1_extras(spec, data, canon, flags, m, obs, out, F)
+
+
+def compare_model_trace(m_events, m_terminal, m_taint, canon, data, flags, oracle):
+    """generic comparison of a model's k-tagged event list with the observed canonical trace"""
+    out = []
     indirect = flags["INDIRECT_START_PTR"]
     obs = observed_events(canon)
     # bytes consumed by the real parser
@@ -471,11 +480,15 @@ def check_f1(spec, data, canon, flags):
         consumed = canon.steps[canon.terminal_at].i
     else:
         consumed = len(data)
-    mev = list(m.events)
-    if m.terminal is not None:
-        mev.append({"kind": "term", "name": m.terminal[0], "k": m.terminal[1], "snap": None, "opt": False, "taint": m.taint})
+    mev = list(m_events)
+    if m_terminal is not None:
+        mev.append({"kind": "term", "name": m_terminal[0], "k": m_terminal[1], "snap": None, "opt": False, "taint": m_taint})
     j = 0
-    F = lambda kind, detail, oracle="F1": out.append(oracles.V(oracle, kind, -1, 0, detail))
+    F = lambda kind, detail, oracle=oracle: out.append(oracles.V(oracle, kind, -1, 0, detail))
+    return _compare_rest(out, obs, mev, j, F, indirect, consumed, data), obs
+
+
+def _compare_rest(out, obs, mev, j, F, indirect, consumed, data):
     for o in obs:
         # skip optional model events that do not match
         while j < len(mev) and mev[j]["opt"] and not (mev[j]["kind"] == o["kind"] and mev[j]["name"] == o["name"]):
@@ -528,6 +541,10 @@ def check_f1(spec, data, canon, flags):
             if e["kind"] == "term" and e["name"] == "FAIL" and e["k"] < len(data):
                 F("fail-missing", "procedural reading fails at byte %d; parser consumed %d bytes without FAIL" % (e["k"], consumed))
                 return out
+    return out
+
+
+def _check_f1_extras(spec, data, canon, flags, m, obs, out, F):
     # DONE must be immediate when the program ends with a match and strict-done is off
     if m.terminal and m.terminal[0] == "DONE" and m.finished_clean and not flags["STRICT_DONE_TOKEN_GENERATION"] \
             and spec["tail"]["kind"] == "done" and spec["items"] and spec["items"][-1]["t"] in ("lit", "fixed") \
@@ -800,8 +817,20 @@ F3_ANY = [("/./", "wild"), ("/[^x]/", "inv"), ("/\\W/", "W"), ("/\\D/", "D"), ("
 
 def gen_f3(rng):
     r = rng
-    shape = r.choice(("records", "sep", "endelse"))
+    shape = r.choice(("records", "sep", "endelse", "tryend", "tryend", "waitend", "waitend"))
     spec = {"family": "F3", "shape": shape}
+    if shape in ("tryend", "waitend"):
+        lit = [r.choice(LET)] + [r.choice(LET + DIG) for _ in range(r.choice((1, 2, 3)))]
+        spec["lit"] = lit
+        if shape == "tryend":
+            L = ["out int{size 2} n = 0;", "hook ht;", "hook he;", "hook hd;", "", "parser {", "    try {", "        %s;" % esc(lit), "        n = 1;", "        ht();", "    }",
+                 "    catch (nomatch) {", "        case {", "            end -> { n = 2; he(); }", "            /./ -> { n = 3; hd(); }", "        }", "    }", "}"]
+        else:
+            L = ["out int{size 2} n = 0;", "hook ht;", "hook hw;", "", "parser {", "    try {", "        %s;" % esc(lit), "        n = 1;", "        ht();", "    }",
+                 "    catch (nomatch) {", "        wait end;", "        n = 2;", "        hw();", "    }", "}"]
+        spec["source"] = "\n".join(L) + "\n"
+        spec["need"] = ["-feof-support"]
+        return spec
     if shape == "records":
         rec = [r.choice(LET)] + [r.choice(LET + DIG) for _ in range(r.choice((0, 1, 2)))]
         code = r.choice((None, "EOFC"))
@@ -827,6 +856,10 @@ def gen_f3(rng):
 
 def f3_inputs(rng, spec, count):
     res = []
+    if spec["shape"] in ("tryend", "waitend"):
+        lit = bytes(spec["lit"])
+        res = [lit, lit[:-1], lit[:1], b"", lit[:-1] + b"\xff", lit[:1] + b"zz", lit + b"q", b"\xff", lit[:-1] + bytes([lit[-1] ^ 1]) + b"ab"]
+        return res
     if spec["shape"] == "records":
         rec = bytes(spec["rec"])
         for _ in range(count):
@@ -890,6 +923,27 @@ def check_f3(spec, data, canon, flags):
         code = group[-1].code
         hooks = [e[0] for c in group for e in c.events]
         snap = group[-1].snap
+        if spec["shape"] in ("tryend", "waitend"):
+            lit = bytes(spec["lit"])
+            nval = [x.split("=")[1] for x in snap.split(";") if x.startswith("n=")]
+            nval = int(nval[0]) if nval else None
+            if len(pre) < len(lit) and lit.startswith(pre):
+                # EOF inside the tried literal is a mismatch: the handler runs and its `end` pattern completes the program
+                want_hook = "he" if spec["shape"] == "tryend" else "hw"
+                if code != "DONE" or hooks != [want_hook] or nval != 2:
+                    F("end-pattern-in-handler", "end() after the strict prefix %s of %s: code %s hooks %s n=%s (expected DONE, [%s], n=2)" % (
+                        pre.hex(), lit.hex(), code, hooks, nval, want_hook))
+                    return out
+            elif pre == lit:
+                if code != "DONE" or "he" in hooks or "hd" in hooks or "hw" in hooks or nval != 1:
+                    F("end-after-complete-try", "end() after the complete literal: code %s hooks %s n=%s (expected DONE, n=1, no handler hook)" % (code, hooks, nval))
+                    return out
+            elif spec["shape"] == "waitend" and not lit.startswith(pre[:len(lit)]) and not pre.startswith(lit):
+                # a data mismatch entered the handler; `wait end` skips every data byte and completes at EOF
+                if code != "DONE" or nval != 2 or hooks.count("hw") != 1:
+                    F("wait-end-in-handler", "end() after %s (handler entered by a data mismatch): code %s hooks %s n=%s (expected DONE, hw once, n=2)" % (pre.hex(), code, hooks, nval))
+                    return out
+            continue
         if spec["shape"] == "records":
             rec = bytes(spec["rec"])
             whole = len(pre) % len(rec) == 0 and pre == rec * (len(pre) // len(rec))
@@ -949,7 +1003,7 @@ def check_f3(spec, data, canon, flags):
 # plumbing: units, engine callback, check entry
 # =====================================================================================
 
-GEN = {"F1": gen_f1, "F2": gen_f2, "F3": gen_f3}
+GEN = {"F1": gen_f1, "F2": gen_f2, "F3": gen_f3}   # F5 is defined at the end of the module
 
 
 def check_canon(fam, data, canon, flags):
@@ -961,16 +1015,20 @@ def check_canon(fam, data, canon, flags):
         return check_f2(fam, data, canon, flags)
     if name == "F3":
         return check_f3(fam, data, canon, flags)
+    if name == "F5":
+        return check_f5(fam, data, canon, flags)
     return []
 
 
 FAMILY_TIER = {"quick": 260, "thorough": 4000}
+FAMILY_SCALE = {"C04": 0.25, "C02": 0.4}
 
 
 def family_tasks(prop, tier, root):
-    n = FAMILY_TIER[tier]
+    n = int(FAMILY_TIER[tier] * FAMILY_SCALE.get(prop, 1.0))
     tasks = []
-    mix = {"C10": ("F1", "F1", "F2", "F2"), "C17": ("F1", "F3", "F3", "F1"), "C03": ("F1",)}[prop]
+    mix = {"C10": ("F1", "F1", "F2", "F2", "F5"), "C17": ("F1", "F3", "F3", "F1"), "C03": ("F1", "F1", "F5"),
+           "C04": ("F5",), "C02": ("F5", "F1")}[prop]
     plan = {"n_inputs": 0, "maxlen": 64, "n_sched": 3, "exhaustive_n": 5, "n_multi": 1, "single_cuts": tier == "thorough",
             "faults": ["cut", "retail", "reloc", "ystop", "eof", "post", "zero"], "want": ["L2", "LAWS"]}
     for i in range(n):
@@ -988,6 +1046,9 @@ def family_tasks(prop, tier, root):
         elif fam == "F2":
             spec = gen_f2(rng)
             xs = f2_inputs(rng, spec, 10)
+        elif fam == "F5":
+            spec = gen_f5(rng)
+            xs = f5_inputs(rng, spec, 8)
         else:
             spec = gen_f3(rng)
             xs = f3_inputs(rng, spec, 8)
@@ -997,6 +1058,9 @@ def family_tasks(prop, tier, root):
             f["eof"] = True
         if prop == "C03":
             f["storage"] = idx % 4
+        if fam == "F5":
+            # the append, the yield and the overflow redirect only share a transition after short-circuiting
+            f["O"] = ro.choice((3, 3, 3, 2, 1, 0))
         argv = workload.sample_argv(ro, need=spec["need"], force=f)
         canaries = {o["name"]: 90 for o in spec.get("outputs", []) if o.get("canary")}
         unit = {"label": "%s:%d" % (fam, idx), "source": spec["source"], "argv": argv, "must_inputs": [x.hex() for x in xs],
@@ -1008,3 +1072,101 @@ def family_tasks(prop, tier, root):
 def run(prop, tier, root, tree, workdir, workers):
     from . import checks
     return checks.run_pool(family_tasks(prop, tier, root), workdir, tree, workers)
+
+
+# =====================================================================================
+# F5 "yao": yield + append + out-of-space redirect on one transition (DESIGN 8.1 item 7)
+# =====================================================================================
+
+def gen_f5(rng):
+    r = rng
+    lo, hi = r.choice(((97, 102), (117, 122), (48, 57)))
+    c1 = r.choice((1, 1, 2, 3))
+    c2 = r.choice((1, 2, 4))
+    variant = r.choice(("A", "A", "B", "C"))
+    pre_hook = r.random() < 0.4
+    h2 = r.random() < 0.4
+    spec = {"family": "F5", "cls": [lo, hi], "c1": c1, "c2": c2, "variant": variant, "pre_hook": pre_hook, "h2": h2}
+    L = ["out str[%d] s0;" % (c1 + 1), "out int{size 1} zc0 = 90;", "out unterminated str[%d] s1;" % c2, "out int{size 1} zc1 = 90;",
+         "hook h0;", "hook h2;", "yieldcode YA;", "", "parser {", "    loop {", "        try {",
+         "            s0 += /%s/;" % cls_text(lo, hi)]
+    if pre_hook:
+        L.append("            h0();")
+    L += ["            yield YA;", "        }", "        catch (outofspace) {", "            delete s0;"]
+    if variant == "B":
+        L.append("            s1 += /%s/;" % cls_text(lo, hi))
+    elif variant == "C":
+        L.append("            s1 += [$last];")
+    if h2:
+        L.append("            h2();")
+    L += ["        }", "    }", "}"]
+    spec["source"] = "\n".join(L) + "\n"
+    spec["need"] = ["-fyield-support"]
+    spec["outputs"] = [{"name": "s0", "type": "STR"}, {"name": "zc0", "type": "INT", "canary": True}, {"name": "s1", "type": "STR"},
+                       {"name": "zc1", "type": "INT", "canary": True}]
+    return spec
+
+
+def f5_model(spec, data):
+    """returns (events, terminal, taint): the procedural reading of the loop"""
+    lo, hi = spec["cls"]
+    s0, s1 = bytearray(), bytearray()
+    ev = []
+    snap = lambda: "s0=%d:%s;zc0=90;s1=%d:%s;zc1=90" % (len(s0), bytes(s0).hex(), len(s1), bytes(s1).hex())
+    pos = 0
+    terminal = None
+
+    def emit(kind, name, k):
+        ev.append({"kind": kind, "name": name, "k": k, "snap": snap(), "opt": False, "taint": False})
+
+    while pos < len(data):
+        b = data[pos]
+        if not (lo <= b <= hi):
+            terminal = ("FAIL", pos)
+            break
+        if len(s0) >= spec["c1"]:
+            # out of space: the byte is not stored, the handler runs with the byte still in flight
+            s0 = bytearray()
+            if spec["variant"] == "B":
+                if len(s1) >= spec["c2"]:
+                    terminal = ("FAIL", pos)       # out of space inside the handler: no enclosing handler
+                    break
+                s1.append(b)
+                pos += 1
+                if spec["h2"]:
+                    emit("hook", "h2", pos)
+                continue                            # loop again: this byte produced no yield
+            if spec["variant"] == "C":
+                if len(s1) >= spec["c2"]:
+                    terminal = ("FAIL", pos)
+                    break
+                s1.append(b)                        # char append of $last: the byte in flight, not consumed
+            if spec["h2"]:
+                emit("hook", "h2", pos)
+            # the handler consumed nothing: the loop re-dispatches the same byte, which now fits
+        s0.append(b)
+        pos += 1
+        if spec["pre_hook"]:
+            emit("hook", "h0", pos)
+        emit("yield", "YA", pos)
+    # events produced after the last consumed byte may still be pending when input stops
+    for e in ev:
+        if e["k"] == len(data) and terminal is None:
+            e["opt"] = True
+    return ev, terminal, False
+
+
+def check_f5(spec, data, canon, flags):
+    ev, terminal, taint = f5_model(spec, data)
+    out, obs = compare_model_trace(ev, terminal, taint, canon, data, flags, "F5")
+    return out
+
+
+def f5_inputs(rng, spec, count):
+    lo, hi = spec["cls"]
+    res = []
+    for k in (1, spec["c1"], spec["c1"] + 1, spec["c1"] * 2 + 1, spec["c1"] + spec["c2"] + 2, 12):
+        res.append(bytes(rng.randint(lo, hi) for _ in range(k)))
+    res.append(bytes(rng.randint(lo, hi) for _ in range(spec["c1"] + 1)) + b"!" + bytes([lo]))
+    res.append(b"!")
+    return res[:max(count, 8)]
